@@ -60,7 +60,7 @@ Theorem C17_number_framing_chunk_independent : forall fuel st s k c W' rest,
   let m := S (num_run rest) in
   let R := c :: rest in
   exists res st', decodeNumber_loop fuel (S s + k) st = (res, st') /\
-    scanned st' = scanned st /\ pcap st' = pcap st /\ rfin (rd st') = rfin (rd st) /\
+    (scanned st' + scanp st' = scanned st + scanp st)%nat /\ pcap st' = pcap st /\ rfin (rd st') = rfin (rd st) /\
     (((m < length R)%nat /\ res = NBreak (s + m) /\ Inv st' /\ (s + m < length (buf st'))%nat /\
       skipn s (buf st') ++ rd_bytes (rd st') = R) \/
      (m = length R /\
@@ -105,6 +105,25 @@ Proof.
               (decode_error_sticky _ _ _ _ (decode_error_recorded _ _ _ _ _ H))).
 Qed.
 Print Assumptions C17_decode_error_sticky.
+
+(* Buffered() is total (it used to panic after a terminal error; /repo d6563a0): scanp <= len(buf) holds in the fresh
+   decoder and is preserved by every Decode and More, for every reader oracle - so Buffered() = Some _ in every reachable
+   state, in particular after an error *)
+Theorem C17_buffered_total : forall avx2,
+  (forall r pc, Buffered (new_decoder r pc) <> None) /\
+  (forall st, Buffered st <> None ->
+     Buffered (snd (Decode (skip_one_fast avx2) inner_decode st)) <> None /\ Buffered (snd (More st)) <> None).
+Proof.
+  intros avx2.
+  assert (E : forall st, Buffered st <> None <-> BInv st).
+  { intros st. unfold Buffered, BInv. destruct (scanp st <=? length (buf st))%nat eqn:L.
+    - apply Nat.leb_le in L. split; [auto|discriminate].
+    - apply Nat.leb_gt in L. split; [congruence|intros H; apply Nat.lt_nge in L; contradiction]. }
+  split.
+  - intros r pc. apply E. unfold BInv. simpl. auto.
+  - intros st H. apply E in H. split; apply E; [exact (decode_binv _ _ st H)|exact (more_binv st H)].
+Qed.
+Print Assumptions C17_buffered_total.
 
 (* ---- stream encoder (full strength for the plain path) *)
 (* every short-write pattern, zero-length writes included, delivers exactly Marshal's bytes plus the newline
